@@ -1,4 +1,144 @@
-From DS Require Import Base.Prelude Model.Cpc Proofs.CpcProofs.
+(* C05 -- the CPC sketch state is exactly the set of distinct (row, column) coupons seen.
+   Statements only; proofs are in Proofs/Cpc{Bits,Spec,Proofs,Inv,Step,Update,Main}.v.
+
+   Reading guide.
+   * A pair is the u32 the crate passes to row_col_update:  rc = (row << 6) | col = row * 64 + col.
+     [valid lgk rc]: the row exists (rc / 64 < 2^lgk) and rc is not u32::MAX, the surprising-value
+     table's empty-slot marker (CpcSketch::update never produces it: row_col_of_hash flips a row bit).
+   * Spec (Proofs/CpcSpec.v):  [spec cs] is the matrix  row -> 64-bit word  obtained by OR-ing the bit
+     (row, col) for every pair of the stream [cs];  [rows_of M K] lists its first K rows;
+     [pop_rows M K] counts their set bits;  [distinct cs] is the number of distinct pairs.
+   * Model (Model/Cpc.v): one Gallina function per Rust function of cpc/sketch.rs and cpc/mod.rs;
+     [cpc_run lgk cs] is CpcSketch::new(lgk) followed by row_col_update for every pair (the public
+     update() is row_col_update after hashing, [row_col_of_hash]).  Every debug_assert!/assert!/expect/
+     index of the crate on this path is a [Stuck] outcome of the model.
+   * Domain: lg_k in 4..=26 and  8 C < 475 K  (C < 59.375 K of the 64 K possible coupons): beyond it the
+     correct window offset exceeds 56 and the crate (like Java/C++) asserts.  Hashing cannot get there.
+   * Not verified (trusted, see tools/props/C05.py): PairTable's slot layout; the model keeps the
+     surprising values as a duplicate-free list (a finite set). *)
+From DS Require Import Base.Prelude Model.Cpc Proofs.CpcBits Proofs.CpcSpec Proofs.CpcProofs Proofs.CpcInv
+  Proofs.CpcStep Proofs.CpcUpdate Proofs.CpcMain.
 Open Scope N_scope.
-Theorem c05_new_ok : forall lgk, 4 <= lgk <= 26 -> exists s, cpc_new lgk = Ok s /\ c_num s = 0.
-Proof. exact cpc_new_ok. Qed.
+
+(* The refinement theorem: for every lg_k and every stream of valid pairs inside the domain the sketch
+   does not panic and afterwards
+     - build_bit_matrix (verif_bit_matrix) returns exactly the Spec matrix of the pairs seen,
+     - num_coupons is its population count = the number of distinct pairs,
+     - window_offset = determine_correct_offset(lg_k, num_coupons), and it is <= 56,
+     - the sliding window is absent iff the flavor is Empty or Sparse,
+     - first_interesting_column <= offset and every column below it is completely set in the matrix
+       (so the speed shortcut in row_col_update never drops a new coupon),
+     - validate() returns true. *)
+Theorem c05_cpc_refines : forall lgk cs,
+  4 <= lgk <= 26 -> Forall (valid lgk) cs -> 8 * distinct cs < 475 * 2 ^ lgk ->
+  exists s, cpc_run lgk cs = Ok s /\
+    build_bit_matrix s = Ok (rows_of (spec cs) (Knat lgk)) /\
+    c_num s = pop_rows (spec cs) (Knat lgk) /\
+    c_num s = distinct cs /\
+    c_off s = determine_correct_offset lgk (c_num s) /\
+    (c_win s = [] <-> cpc_flavor s <= SPARSE) /\
+    fic_ok lgk s (spec cs) /\
+    c_off s <= 56 /\
+    cpc_validate s = Ok true.
+Proof. exact cpc_refines. Qed.
+
+(* abs (from_matrix M w) = M for every window offset w <= 56: the window bytes, the surprising values
+   (inverted in the early zone) and the first interesting column derived from ANY k x 64 matrix by the
+   loop of move_window / CpcUnion::to_sketch describe exactly that matrix again (three column zones).
+   [255] are the two 0xFF literals of the loop; the side condition excludes the one pair the table
+   cannot store. *)
+Theorem c05_from_matrix_abs : forall lgk m off C fic0 mg kxp hip,
+  length m = Knat lgk -> Forall (fun w => w < 2 ^ 64) m -> off <= 56 -> C <> 0 ->
+  (forall r c, r < 2 ^ lgk -> c < 64 -> N.testbit (nthN m r 0) c = true -> r * 64 + c <> U32MAX) ->
+  exists win tab fic,
+    from_matrix 255 255 off m = Ok (win, tab, fic) /\
+    build_bit_matrix (mkCpc lgk fic0 C (Some tab) off win mg kxp hip) = Ok m /\
+    fic <= off /\ (forall r c, r < 2 ^ lgk -> c < fic -> N.testbit (nthN m r 0) c = true).
+Proof. exact from_matrix_abs. Qed.
+
+(* the two literals really are 0xFF in the translated source of move_window *)
+Theorem c05_move_window_literals : MW_FF = 255 /\ MW_FF2 = 255.
+Proof. exact move_window_literals. Qed.
+
+(* Window moves happen exactly at the thresholds: one more pair either leaves the offset alone
+   (and then 8 C' < (27 + 8 w) K still holds) or moves the window by exactly one column, which happens
+   iff 8 C' >= (27 + 8 w) K; either way the offset is determine_correct_offset of the new count. *)
+Theorem c05_cpc_flavor_thresholds : forall lgk cs rc s,
+  4 <= lgk <= 26 -> Forall (valid lgk) cs -> valid lgk rc -> 8 * distinct (cs ++ [rc]) < 475 * 2 ^ lgk ->
+  cpc_run lgk cs = Ok s ->
+  exists s', row_col_update s rc = Ok s' /\
+    (c_num s' = c_num s \/ c_num s' = c_num s + 1) /\
+    ((c_off s' = c_off s + 1 /\ (27 + 8 * c_off s) * 2 ^ lgk <= 8 * c_num s') \/
+     (c_off s' = c_off s /\ 8 * c_num s' < (27 + 8 * c_off s) * 2 ^ lgk)) /\
+    c_off s' = determine_correct_offset lgk (c_num s').
+Proof. exact cpc_flavor_thresholds. Qed.
+
+(* determine_flavor is the position of C among 1, 3K/32, K/2, 27K/8 (unbounded arithmetic; the u32
+   arithmetic of the compiled function is the subject of C17) *)
+Theorem c05_cpc_flavor_spec : forall lgk C,
+  (determine_flavor lgk C = EMPTY <-> C = 0) /\
+  (determine_flavor lgk C = SPARSE <-> 0 < C /\ 32 * C < 3 * 2 ^ lgk) /\
+  (determine_flavor lgk C = HYBRID <-> 3 * 2 ^ lgk <= 32 * C /\ 2 * C < 2 ^ lgk) /\
+  (determine_flavor lgk C = PINNED <-> 2 ^ lgk <= 2 * C /\ 8 * C < 27 * 2 ^ lgk) /\
+  (determine_flavor lgk C = SLIDING <-> 27 * 2 ^ lgk <= 8 * C).
+Proof. exact cpc_flavor_spec. Qed.
+
+(* inside the domain determine_correct_offset is floor((8C - 19K) / 8K), 0 below 19K/8, without u8 truncation *)
+Theorem c05_correct_offset_spec : forall lgk C, 8 * C < 475 * 2 ^ lgk ->
+  determine_correct_offset lgk C = coff (2 ^ lgk) C /\ coff (2 ^ lgk) C <= 56.
+Proof. exact correct_offset_spec. Qed.
+
+(* no panic: no debug_assert!/assert!/expect/index on the update path fires, build_bit_matrix and
+   validate succeed (lg_k 4..=26, unbounded arithmetic) *)
+Theorem c05_cpc_no_stuck : forall lgk cs,
+  4 <= lgk <= 26 -> Forall (valid lgk) cs -> 8 * distinct cs < 475 * 2 ^ lgk ->
+  exists s, cpc_run lgk cs = Ok s /\ (exists m, build_bit_matrix s = Ok m) /\ cpc_validate s = Ok true.
+Proof. exact cpc_no_stuck. Qed.
+
+(* the public update(): the pair derived from ANY 128-bit hash is valid, so every stream of items is covered *)
+Theorem c05_hashed_pairs_valid : forall lgk h1 h2, 4 <= lgk <= 26 -> valid lgk (row_col_of_hash lgk h1 h2).
+Proof. exact row_col_of_hash_valid. Qed.
+
+Theorem c05_cpc_update_no_stuck : forall lgk hs,
+  4 <= lgk <= 26 ->
+  8 * distinct (map (fun h => row_col_of_hash lgk (fst h) (snd h)) hs) < 475 * 2 ^ lgk ->
+  exists s, cpc_run lgk (map (fun h => row_col_of_hash lgk (fst h) (snd h)) hs) = Ok s.
+Proof. exact cpc_update_no_stuck. Qed.
+
+(* the constants of the Rust function bodies the model is written over, as translated on this run *)
+Theorem c05_literals_manifest :
+  Gen.GenCpc.LIT_update = [1; 63; 63; 1; 6; 1; 6]%Z /\
+  Gen.GenCpc.LIT_row_col_update = [63; 0; 2; 6]%Z /\
+  Gen.GenCpc.LIT_update_hip = [1; 63; 1]%Z /\
+  Gen.GenCpc.LIT_update_sparse = [1; 5; 3; 1; 5; 3]%Z /\
+  Gen.GenCpc.LIT_promote_sparse_to_windowed = [0; 1; 5; 3; 4; 3; 0; 2; 6; 63; 8; 6; 1]%Z /\
+  Gen.GenCpc.LIT_update_windowed = [56; 1; 5; 3; 3; 3; 27; 63; 8; 6; 1; 1; 3; 27; 56; 3; 27]%Z /\
+  Gen.GenCpc.LIT_move_window = [1; 56; 1; 7; 0; 255; 1; 1; 0; 255; 0; 1; 6]%Z /\
+  Gen.GenCpc.LIT_refresh_kxp = [8; 255; 8; 8]%Z /\
+  Gen.GenCpc.LIT_build_bit_matrix = [1; 56; 1; 1; 0; 63; 6; 1]%Z /\
+  Gen.GenCpc.LIT_determine_flavor = [1; 1; 3; 5; 0; 3; 27]%Z /\
+  Gen.GenCpc.LIT_determine_correct_offset = [1; 3; 19; 0; 0; 3]%Z /\
+  Gen.GenCpc.MIN_LG_K = 4%Z /\ Gen.GenCpc.MAX_LG_K = 26%Z.
+Proof. exact literals_manifest. Qed.
+
+(* non-vacuity: lg_k = 4; columns 0..5 filled except the pair (row 15, col 1), one surprising one far to
+   the right, a duplicate: three window moves (offset 3), a surprising ZERO in the early zone
+   (15*64+1 = 961 in the table), a surprising one (5*64+40 = 360), first interesting column 1 *)
+Definition c05_ex_colfill (cols rows : list N) : list N :=
+  flat_map (fun c => map (fun r => r * 64 + c) rows) cols.
+Definition c05_ex_stream : list N :=
+  c05_ex_colfill [0] (map N.of_nat (seq 0 16)) ++ c05_ex_colfill [1] (map N.of_nat (seq 0 15)) ++
+  c05_ex_colfill [2; 3] (map N.of_nat (seq 0 16)) ++ [5 * 64 + 40; 7 * 64 + 9; 5 * 64 + 40] ++
+  c05_ex_colfill [4; 5] (map N.of_nat (seq 0 16)).
+
+Example c05_example :
+  Forall (valid 4) c05_ex_stream /\ 8 * distinct c05_ex_stream < 475 * 2 ^ 4 /\
+  exists s, cpc_run 4 c05_ex_stream = Ok s /\ c_num s = 97 /\ c_off s = 3 /\ c_fic s = 1 /\
+            c_table s = Some [360; 961] /\ nthN (c_win s) 7 0 = 71 /\
+            build_bit_matrix s = Ok [63; 63; 63; 63; 63; 1099511627839; 63; 575; 63; 63; 63; 63; 63; 63; 63; 61].
+Proof.
+  split; [|split].
+  - unfold valid. repeat constructor; vm_compute; congruence.
+  - vm_compute. reflexivity.
+  - eexists. split; [vm_compute; reflexivity|]. repeat split; vm_compute; reflexivity.
+Qed.
